@@ -1,131 +1,15 @@
 //@ inject crate=dc src=dc/s2n-quic-dc/src/packet/control/decoder.rs
-// Contract harnesses for the dc control-packet codec (property C18): encode/decode round trip, announced length,
-// MAC coverage (everything but the tag), decoder totality.
+// Contract harnesses for the dc control-packet decoder (property C18): totality and structural well-formedness of
+// what it hands out.
 use super::*;
-use crate::packet::control::encoder;
-use s2n_codec::EncoderBuffer;
 include!("_pkt_common.rs");
 
-const HMAX: usize = 2; // application header bytes
-const CMAX: usize = 4; // control data bytes
-const BUF: usize = 96; // longest packet with these bounds: 1+16+8+1+8+8+8+8+1+2+4+16 = 81
+// NOT ACHIEVED: encode -> decode round trip of control packets.  Three formulations were tried (symbolic shape with
+// application header <= 2 / control data <= 4; concrete shapes "all fields", "stream ack", "minimal"); none finished
+// within 40 min per harness (load 35-70 on the shared machine).  The drafts are kept in
+// probes/kani_dc_packet_round_trip_drafts.rs.  control::encoder::encode is therefore NOT under contract.
 
-fn eq_small(a: &[u8], b: &[u8]) -> bool {
-    a.len() == b.len()
-        && (a.len() < 1 || a[0] == b[0])
-        && (a.len() < 2 || a[1] == b[1])
-        && (a.len() < 3 || a[2] == b[2])
-        && (a.len() < 4 || a[3] == b[3])
-        && a.len() <= 4
-}
-
-fn any_stream_id() -> Option<stream::Id> {
-    if kani::any() {
-        let q: u64 = kani::any();
-        kani::assume(q < (1u64 << 60)); // stream::Id invariant (MAX_QUEUE_ID), enforced by its constructors
-        let mut id = stream::Id::normal(VarInt::new(q).unwrap()).unwrap();
-        id.is_reliable = kani::any();
-        id.is_bidirectional = kani::any();
-        Some(id)
-    } else {
-        None
-    }
-}
-
-fn stream_id_wire(id: Option<stream::Id>) -> Option<u64> {
-    // independent transcription: (queue_id << 2) | reliable << 1 | bidirectional
-    match id {
-        Some(id) => Some((id.queue_id().as_u64() << 2) | ((id.is_reliable as u64) << 1) | (id.is_bidirectional as u64)),
-        None => None,
-    }
-}
-
-//@ harness props=C18 tier=thorough level=bounded timeout=1800 bound="application header <= 2 bytes, control data <= 4 bytes; all integer fields full-domain"
-//@ fn packet::control::encoder::encode
-//@ fn packet::control::decoder::Packet::decode
-#[kani::proof]
-#[kani::unwind(8)]
-fn vq_c18_control_round_trip() {
-    let source_queue_id = any_opt_varint();
-    let stream_id = any_stream_id();
-    let packet_number = any_varint();
-    let credentials = any_credentials();
-    let hdr: [u8; HMAX] = kani::any();
-    let hl: usize = kani::any();
-    kani::assume(hl <= HMAX);
-    let cd: [u8; CMAX] = kani::any();
-    let cl: usize = kani::any();
-    kani::assume(cl <= CMAX);
-    let key = StandInKey::new();
-    let mut buf = [0u8; BUF];
-    let base = buf.as_ptr();
-
-    let mut header_storage: &[u8] = &hdr[..hl];
-    let control_data: &[u8] = &cd[..cl];
-    // call-site facts (stream/recv/state.rs, stream/send/...): header_len == header.len(), control_data_len == encoding size
-    let len = encoder::encode(
-        EncoderBuffer::new(&mut buf),
-        source_queue_id,
-        stream_id,
-        packet_number,
-        VarInt::new(hl as u64).unwrap(),
-        &mut header_storage,
-        VarInt::new(cl as u64).unwrap(),
-        &control_data,
-        &key,
-        &credentials,
-    );
-
-    // encoded length as announced by the wire format
-    let sid = stream_id_wire(stream_id);
-    let expect_len = 1 + 16 + varint_len(credentials.key_id.as_u64()) + 1
-        + (match sid { Some(v) => varint_len(v), None => 0 })
-        + (match source_queue_id { Some(v) => varint_len(v.as_u64()), None => 0 })
-        + varint_len(packet_number.as_u64())
-        + varint_len(cl as u64)
-        + (if hl > 0 { varint_len(hl as u64) + hl } else { 0 })
-        + cl
-        + TAGLEN;
-    assert!(len == expect_len, "C18/control.encode/encoded_len_as_announced");
-    // the MAC is computed over everything but the tag, and written to the last 16 bytes
-    assert!(key.signed_header.get() == (base, len - TAGLEN), "C18/control.encode/mac_covers_every_byte_before_the_tag");
-    assert!(key.signed_tag.get() == (unsafe { base.add(len - TAGLEN) }, TAGLEN), "C18/control.encode/tag_is_the_last_16_bytes");
-    // tag byte: independent transcription of the bit layout 0101 Q S H 0
-    let tag_byte = 0b0101_0000u8
-        | (if source_queue_id.is_some() { 0b1000 } else { 0 })
-        | (if stream_id.is_some() { 0b0100 } else { 0 })
-        | (if hl > 0 { 0b0010 } else { 0 });
-    assert!(buf[0] == tag_byte, "C18/control.encode/tag_byte_layout");
-
-    let (packet, rest) = match Packet::decode(DecoderBufferMut::new(&mut buf[..len]), (), TAGLEN) {
-        Ok(v) => v,
-        Err(_) => {
-            assert!(false, "C18/control.round_trip/encoded_packet_decodes");
-            return;
-        }
-    };
-    assert!(rest.is_empty(), "C18/control.round_trip/nothing_left_over");
-    assert!(id_of(&packet.credentials().id) == id_of(&credentials.id) && packet.credentials().key_id == credentials.key_id,
-            "C18/control.round_trip/credentials");
-    assert!(packet.wire_version() == WireVersion::ZERO, "C18/control.round_trip/wire_version");
-    assert!(opt_u64(packet.source_queue_id()) == opt_u64(source_queue_id), "C18/control.round_trip/source_queue_id");
-    assert!(stream_id_wire(packet.stream_id().copied()) == sid, "C18/control.round_trip/stream_id");
-    assert!(packet.packet_number() == packet_number, "C18/control.round_trip/packet_number");
-    assert!(eq_small(packet.application_header(), &hdr[..hl]), "C18/control.round_trip/application_header");
-    assert!(eq_small(packet.control_data(), &cd[..cl]), "C18/control.round_trip/control_data");
-    assert!(packet.header().as_ptr() == base && packet.header().len() == len - TAGLEN && packet.auth_tag().len() == TAGLEN
-                && packet.auth_tag().as_ptr() == unsafe { base.add(len - TAGLEN) } && packet.total_len() == len,
-            "C18/control.round_trip/header_and_tag_partition_the_packet");
-    use crate::crypto::open::Control as _;
-    assert!(key.verify(packet.header(), packet.auth_tag()).is_ok(), "C18/control.round_trip/sealed_packet_verifies");
-
-    kani::cover!(hl == HMAX && cl == CMAX && source_queue_id.is_some() && stream_id.is_some(), "reach:all_optional_fields");
-    kani::cover!(hl == 0 && cl == 0 && source_queue_id.is_none() && stream_id.is_none(), "reach:minimal_packet");
-    kani::cover!(len == 81, "reach:longest_packet");
-    kani::cover!(true, "reach:end");
-}
-
-//@ harness props=C18 tier=thorough level=bounded timeout=1800 bound="input <= 48 bytes, contents and length symbolic (shortest valid packet: 37 bytes)"
+//@ harness props=C18 tier=thorough level=bounded timeout=2400 bound="input <= 48 bytes, contents and length symbolic (shortest valid packet: 37 bytes)"
 //@ fn packet::control::decoder::Packet::decode
 #[kani::proof]
 #[kani::unwind(8)]
